@@ -1,5 +1,5 @@
 (** Verifier family: case type and checker. *)
-From GV Require Export World Reviews Tags Verdict.
+From GV Require Export World Reviews Tags FileRules Verdict.
 
 Inductive vmode := MFull | MLatest | MFrom (i : nat).
 Inductive wobs := WO (v : vout) | VPanic.
@@ -11,6 +11,8 @@ Inductive wcase :=
 | WFindingCase (k : nat) (w : world) (ref : bytes) (m : vmode) (obs : wobs)          (* replay of a listed finding *)
 | WCaseMono (w w_noglobals : world) (ref : bytes) (m : vmode) (obs obs_ng : wobs)   (* C11: P with and without its global rules *)
 | WReview (rw : rworld) (ref : bytes) (obs : wobs)
+| WTagsMono (tw : tworld) (ref : bytes) (obs_g obs_ng : wobs)   (* C11: the tag history of [tw] under its policy plus global rules, and as it is *)
+| WFilesMono (fw : fworld) (ref : bytes) (obs_g obs_ng : wobs)   (* C11: a history under file rules, under its policy plus global rules and as it is *)
 | WTags (tw : tworld) (ref : bytes) (obs : wobs).                                    (* C01: entries of a tag reference *)                                  (* C09: latest-only verification with code-review approvals *)
 
 Definition verr_eqb (a b : verr) : bool :=
@@ -100,6 +102,28 @@ Definition wcase_check (c : wcase) : verdict :=
             if negb (Bool.eqb (vout_ok mo) (vout_ok o)) then VSpec 5
             else if vout_ok o && negb (vout_eqb mo o) then VSpec 5 else VOk
       end
+  | WTagsMono tw ref og o =>
+      match o, og with
+      | WO o, WO og =>
+          if negb (tag_shape (tw_world tw) ref) then VMismatch 9
+          else
+            let mo := verify_full_tags tw ref in
+            if negb (Bool.eqb (vout_ok mo) (vout_ok o)) then VSpec 5
+            else if vout_ok o && negb (vout_eqb mo o) then VSpec 5
+            (* declaring global rules never makes verification accept a tag history the delegation rules alone reject *)
+            else if vout_ok og && negb (vout_ok o) then VSpec 3
+            else VOk
+      | _, _ => VSpec 9
+      end
+  | WFilesMono fw ref og o =>
+      match o, og with
+      | WO o, WO og =>
+          if negb (c10_shape (fw_world fw) ref) then VMismatch 9
+          else if negb (Bool.eqb (vout_ok (verify_full_files fw ref)) (vout_ok o)) then VMismatch 5   (* the file-rule clauses themselves are C10's *)
+          else if vout_ok og && negb (vout_ok o) then VSpec 3
+          else VOk
+      | _, _ => VSpec 9
+      end
   | WCaseMono w w' ref m o o' =>
       match check1 w ref m o, check1 w' ref m o' with
       | VOk, VOk =>
@@ -122,5 +146,6 @@ Definition wcase_model (c : wcase) : vout :=
   match c with
   | WCase w ref m _ | WFindingCase _ w ref m _ | WCaseMono w _ ref m _ _ => run_mode w ref m
   | WReview rw ref _ => verify_latest_r rw ref
-  | WTags tw ref _ => verify_full_tags tw ref
+  | WTags tw ref _ | WTagsMono tw ref _ _ => verify_full_tags tw ref
+  | WFilesMono fw ref _ _ => verify_full_files fw ref
   end.
